@@ -40,11 +40,28 @@ def jobs_stall(rng, thorough):
     return out
 
 
+def jobs_misc(rng, thorough):
+    """fourth pass, monitor only: the log requested from inside a message callback (the line being delivered has crossed the wire), and after a
+    link failure / close() (the log still holds the most recent lines)"""
+    out = []
+    for _ in range(6000 if thorough else 150):
+        if rng.random() < 0.5:
+            spec = dict(gen.conn_log(rng))
+            spec["device"] = dict(spec["device"], echo_put=True)
+            spec["callbacks"] = {"1": [[["snap"]] if rng.random() < 0.5 else [] for _ in range(rng.randint(1, 12))]}
+        else:
+            spec = gen.conn_lifecycle(rng)
+            spec["log_size"] = rng.choice([1, 3, 5, 100])
+        out.append((spec, rng.randrange(10 ** 9), rng.choice([0, 0, 3])))
+    return out
+
+
 def run(ctx: core.Ctx):
     ctx.lean_stage(extra_props=("C20x",))
     b2check.run_b2(ctx, jobs, ["C20"], label="log scenarios", log_visible=True)
     b2check.run_b2(ctx, jobs_preempt, ["C20"], label="log scenarios with preemption (monitor only for the log)", accept_log_size=0)
     b2check.run_b2(ctx, jobs_stall, ["C20"], label="log scenarios with stalled threads (monitor only)", accept=False)
+    b2check.run_b2(ctx, jobs_misc, ["C20"], label="log requested from inside a callback / after a link failure or close() (monitor only)", accept=False)
     ctx.info["rule"] = ("sessions shorter and longer than N for N in {0,1,2,5,100}, log snapshots taken at random points by a concurrent caller and compared with the port's own record; each under a seeded schedule with extra line-level preemptions; a case = one schedule; "
                         "non-trivial = distinct (spec, seed)")
     return ctx.finish()
